@@ -342,6 +342,63 @@ pub fn api_bodies(
             }
         }
     }
+    // Well-formed but unusual values, sent to the CA that holds every
+    // resource (the testbed CA): whatever the daemon accepts and stores
+    // it must be able to read again - otherwise one request makes the CA
+    // unloadable for good.
+    {
+        let unusual = [
+            // IPv4-mapped and other special IPv6 space.
+            r#"{"added":[{"asn":64500,"prefix":"::ffff:102:300/120"}],"removed":[]}"#,
+            r#"{"added":[{"asn":64501,"prefix":"::ffff:0:0/96","max_length":128}],"removed":[]}"#,
+            r#"{"added":[{"asn":64502,"prefix":"64:ff9b::/96"}],"removed":[]}"#,
+            r#"{"added":[{"asn":64503,"prefix":"::/0","max_length":0}],"removed":[]}"#,
+            r#"{"added":[{"asn":64504,"prefix":"::1/128"}],"removed":[]}"#,
+            r#"{"added":[{"asn":4294967295,"prefix":"255.255.255.255/32"}],"removed":[]}"#,
+            r#"{"added":[{"asn":0,"prefix":"0.0.0.0/0","max_length":0}],"removed":[]}"#,
+            r#"{"added":[{"asn":64505,"prefix":"fe80::/10","comment":"=> # \" \n"}],"removed":[]}"#,
+        ];
+        let mut accepted = 0;
+        for body in unusual {
+            let inst = r.world.inst(0);
+            inst.enter();
+            let mgr = inst.mgr().clone();
+            let text = body.to_string();
+            let res = guarded(move || -> Option<Result<(), String>> {
+                let v: api::roa::RoaConfigurationUpdates
+                    = serde_json::from_str(&text).ok()?;
+                Some(block_on(mgr.ca_routes_update(
+                    handle("testbed"), v, ADMIN
+                )).map_err(|e| format!("{e:?}")))
+            });
+            match res {
+                Guarded::Ok(Some(Ok(()))) => { accepted += 1; }
+                Guarded::Ok(_) => { }
+                Guarded::Panic(msg) => fail(
+                    "panic", format!("ROA delta {body} for testbed: {msg}")
+                ),
+                other => fail(
+                    "panic", format!("ROA delta {body} for testbed: {other:?}")
+                ),
+            }
+        }
+        if accepted > 0 {
+            cases.insert("c16.api.roa.unusual_accepted".into());
+        }
+        // Read everything back the way a restarted daemon does.
+        let before = r.violations.len();
+        crate::c06::check(r);
+        let found: Vec<Violation> = r.violations.drain(before..).collect();
+        for v in found {
+            fail(
+                "accepted_value_does_not_load",
+                format!(
+                    "after accepting unusual ROA prefixes for the CA that \
+                     holds all resources: {} ({})", v.detail, v.rule
+                )
+            );
+        }
+    }
     // Background work must survive whatever was accepted.
     r.exec_pump();
     if let Some(dead) = &r.dead {
